@@ -584,7 +584,7 @@ func fullPathStress(res *Result, r *Rng, rounds int) {
 var ctrRand atomic.Uint64
 
 func runC15(res *Result, tier string, seed int64, replay string) {
-	res.Rule = "(1b) model-guided replay of whole cached compilations: 2–5 goroutines compile three documents (one unparsable) through Render(WithCache), parked at the yield points of parseAST and singleflightDo; the Lean concurrent cache Model (driver `cc`) chooses each next step — a thread step, an eviction, the passing of time — and after every step the goroutine must stand where the Model's thread stands; every compilation must return the uncached result and the cache must hold exactly the Model's entries; (1) model-guided replay: 2–6 goroutines on 1–2 keys call the real singleflightDo, parked at verif yield points; at every step the Lean Model (driver `sf`) gives the enabled set, one enabled goroutine is granted one atomic step and must arrive at the label the Model predicts (start/locked/waiting/lead/parsing/assigned/signalled/deleting/ret) and return the leader's node; (2) unguided search: free-running goroutines with seeded delays at the yield points, oracle = no overlapping parse per key, complete result of own key, all return; (3) full-path stress of Render(WithCache) with expiry shifts and stop/restart, solo-result comparison, cleanup-goroutine accounting; (3b) the cleanup goroutine held at a yield point (just started / a sweep just finished) while the main goroutine stops it, uses the cache, stops again: fixed and seeded scripts, each in a fresh process with a 1 ms interval; after the release exactly the goroutines the last call asks for are alive and registered; (4) life of the cleanup goroutine: histories with stops, restarts and configuration calls made while a cleaner runs, and sweeps that really run (1 ms interval, a tick awaited after every step: over an empty cache, over expired entries only, around stops), each in a fresh process and on the Lean cache Model (goroutines started / exited / registered, at most one alive); run under the race detector. Non-trivial = schedule with ≥2 goroutines on one key; distinct by label trace"
+	res.Rule = "(1b) model-guided replay of whole cached compilations: 2–5 goroutines compile three documents (one unparsable) through Render(WithCache), parked at the yield points of parseAST and singleflightDo; the Lean concurrent cache Model (driver `cc`) chooses each next step — a thread step, an eviction, the passing of time — and after every step the goroutine must stand where the Model's thread stands; every compilation must return the uncached result and the cache must hold exactly the Model's entries; (1) model-guided replay: 2–6 goroutines on 1–2 keys call the real singleflightDo, parked at verif yield points; at every step the Lean Model (driver `sf`) gives the enabled set, one enabled goroutine is granted one atomic step and must arrive at the label the Model predicts (start/locked/waiting/lead/parsing/assigned/signalled/deleting/ret) and return the leader's node; (2) unguided search: free-running goroutines with seeded delays at the yield points, oracle = no overlapping parse per key, complete result of own key, all return; (3) full-path stress of Render(WithCache) with expiry shifts and stop/restart, solo-result comparison, cleanup-goroutine accounting; (2b) a parse function that panics, with 0–3 waiters: nobody stays blocked, the call does not stay registered, the next caller parses again; (3b) the cleanup goroutine held at a yield point (just started / a sweep just finished) while the main goroutine stops it, uses the cache, stops again: fixed and seeded scripts, each in a fresh process with a 1 ms interval; after the release exactly the goroutines the last call asks for are alive and registered; (4) life of the cleanup goroutine: histories with stops, restarts and configuration calls made while a cleaner runs, and sweeps that really run (1 ms interval, a tick awaited after every step: over an empty cache, over expired entries only, around stops), each in a fresh process and on the Lean cache Model (goroutines started / exited / registered, at most one alive); run under the race detector. Non-trivial = schedule with ≥2 goroutines on one key; distinct by label trace"
 	drv, err := startDriver()
 	if err != nil {
 		res.Disagree(Violation{Sig: "driver-missing", Kind: "schedule", What: err.Error()})
@@ -643,6 +643,70 @@ func runC15(res *Result, tier string, seed int64, replay string) {
 	// concurrent cache Model, schedule by schedule
 	ccReplays(res, seed, nSched/2, "C15")
 	fullPathStress(res, NewRng(seed, "c15/stress"), rounds)
+	// (2b) a parse that panics: the goroutine that did the work gets the panic, nobody stays blocked, the call does not stay
+	// registered, and the next caller for the same template parses again
+	if replay == "" {
+		for round := 0; round < 20; round++ {
+			key := uint64(900000 + round)
+			node := &mjml.MJMLNode{}
+			waiters := round % 4
+			var wg sync.WaitGroup
+			entered := make(chan struct{})
+			release := make(chan struct{})
+			var leaderPanicked atomic.Bool
+			wg.Add(1)
+			go func() {
+				defer wg.Done()
+				defer func() {
+					if recover() != nil {
+						leaderPanicked.Store(true)
+					}
+				}()
+				mjml.VerifSingleflightDo(key, func() (*mjml.MJMLNode, error) {
+					close(entered)
+					<-release
+					panic("parse failed hard")
+				})
+			}()
+			<-entered
+			var stuck atomic.Int64
+			for w := 0; w < waiters; w++ {
+				wg.Add(1)
+				stuck.Add(1)
+				go func() {
+					defer wg.Done()
+					defer stuck.Add(-1)
+					defer func() { recover() }()
+					mjml.VerifSingleflightDo(key, func() (*mjml.MJMLNode, error) { return node, nil })
+				}()
+			}
+			time.Sleep(2 * time.Millisecond)
+			close(release)
+			done := make(chan struct{})
+			go func() { wg.Wait(); close(done) }()
+			res.Case(fmt.Sprintf("panicking-parse|%d", round), true)
+			res.Count("panicking-parse")
+			in := map[string]interface{}{"scenario": "the parse function of the goroutine that does the work panics", "waiters": waiters}
+			select {
+			case <-done:
+			case <-time.After(3 * time.Second):
+				res.Violate(Violation{Sig: "panicking-parse|blocked", Kind: "schedule", What: fmt.Sprintf("%d goroutine(s) still blocked 3 s after the parse panicked", stuck.Load()), Input: in})
+				continue
+			}
+			if !leaderPanicked.Load() {
+				res.Count("panicking-parse=panic-not-propagated")
+			}
+			if n := mjml.VerifSingleflightInFlight(); n != 0 {
+				res.Violate(Violation{Sig: "panicking-parse|call-stays-registered", Kind: "schedule", What: fmt.Sprintf("%d call(s) still registered after the parse panicked and everybody returned", n), Input: in})
+				continue
+			}
+			called := false
+			got, err := mjml.VerifSingleflightDo(key, func() (*mjml.MJMLNode, error) { called = true; return node, nil })
+			if !called || got != node || err != nil {
+				res.Violate(Violation{Sig: "panicking-parse|next-caller-does-not-parse", Kind: "schedule", What: fmt.Sprintf("after a panicking parse the next caller for the same template did not parse again (parsed: %v, error: %v)", called, err), Input: in})
+			}
+		}
+	}
 	// (3b) the cleanup goroutine held at its yield points (just started; a sweep just done) while it is stopped and started
 	if replay == "" {
 		np := 12
